@@ -942,7 +942,12 @@ class Engine:
             rv = st.heap[v.oid] if isinstance(v, Ref) else None
             r_at = (lambda i, rv=rv: self.select(list(rv.items), i)) if isinstance(rv, ListV) else rv.at
             elem = o.elem if isinstance(o, SymListV) else (rv.elem if isinstance(rv, SymListV) else 'obj')
-            st.heap[base.oid] = SymListV(n, lambda i, lo=lo, hi=hi: ite(and_(le(lo, i), lt(i, hi)), r_at(sub(i, lo)), old_at(i)), elem, o.origin)
+            def cell(i, lo=lo, hi=hi):
+                inside = and_(le(lo, i), lt(i, hi))
+                if isinstance(inside, bool):
+                    return r_at(sub(i, lo)) if inside else old_at(i)     # concrete position: only the selected side is read
+                return ite(inside, r_at(sub(i, lo)), old_at(i))
+            st.heap[base.oid] = SymListV(n, cell, elem, o.origin)
             return
         if isinstance(o, ListV):
             i = self.norm_index(idx, len(o.items), st)
